@@ -214,7 +214,7 @@ func C05(c *core.Ctx) {
 	ruleCNorm(c)
 	c05Families(c)
 	runCompositions(c, ruleSet("A-REJ", "A-NOEXTRA", "A-NILG"), "minimum", "maximum", "bound")
-	ruleMultiSel(c, ruleSet("A-REJ", "A-NOEXTRA"), 3, "differing only in minimum", "differing only in maximum", "differing only in multipleOf")
+	ruleMultiSel(c, ruleSet("A-REJ", "A-NOEXTRA"), 3, "differing only in minimum", "differing only in maximum", "differing only in multipleOf", "three files with their own maximum")
 	// the same bounds under --min-sized-ints: a check is absent only where the Go type's range implies it
 	ruleSizedFamilies(c, []string{"required"}, 300)
 	// the numeric keywords reach the generator as written (a bound of 0 is a bound)
